@@ -321,6 +321,91 @@ func main() {
 			}
 		}
 
+		// ---- indexer.go / tokenizer: the facts the index model relies on
+		if xf, err := r.Load("proxy/bulk/indexer.go"); err != nil {
+			e.Missing("indexer.go", err)
+		} else {
+			if fd := xf.Func("indexer", "Index"); fd == nil {
+				e.Missing("indexSteps", "indexer.Index not found")
+			} else {
+				var evs []string
+				ast.Inspect(fd.Body, func(n ast.Node) bool {
+					switch x := n.(type) {
+					case *ast.CallExpr:
+						c := xf.Render(x.Fun)
+						if c == "i.appendMeta" || c == "i.decodeInternal" {
+							evs = append(evs, xf.Render(x))
+						}
+					case *ast.ForStmt:
+						evs = append(evs, "for "+xf.Render(x.Init)+"; "+xf.Render(x.Cond))
+					case *ast.AssignStmt:
+						if strings.Contains(xf.Render(x), "parent.Tokens") {
+							evs = append(evs, xf.Render(x))
+						}
+					}
+					return true
+				})
+				e.Strs("indexSteps", evs, "indexer.Index: first meta, decode, copy of the parent's tokens into the nested metas")
+			}
+			if fd := xf.Func("indexer", "decodeInternal"); fd == nil {
+				e.Missing("decodeConds", "decodeInternal not found")
+			} else {
+				var conds []string
+				ast.Inspect(fd.Body, func(n ast.Node) bool {
+					if x, ok := n.(*ast.IfStmt); ok {
+						conds = append(conds, xf.Render(x.Cond))
+					}
+					return true
+				})
+				e.Strs("decodeConds", conds, "decodeInternal: conditions in source order")
+			}
+			if fd := xf.Func("indexer", "appendNestedMeta"); fd == nil {
+				e.Missing("nestedMeta", "appendNestedMeta not found")
+			} else {
+				var evs []string
+				ast.Inspect(fd.Body, func(n ast.Node) bool {
+					switch x := n.(type) {
+					case *ast.ValueSpec:
+						evs = append(evs, xf.Render(x))
+					case *ast.CallExpr:
+						if xf.Render(x.Fun) == "i.appendMeta" {
+							evs = append(evs, xf.Render(x))
+						}
+					}
+					return true
+				})
+				e.Strs("nestedMeta", evs, "appendNestedMeta: the nested meta's size and ID")
+			}
+			if fd := xf.Func("indexer", "decodeTags"); fd == nil {
+				e.Missing("tagsSteps", "decodeTags not found")
+			} else {
+				var evs []string
+				ast.Inspect(fd.Body, func(n ast.Node) bool {
+					if x, ok := n.(*ast.AssignStmt); ok {
+						evs = append(evs, xf.Render(x))
+					}
+					return true
+				})
+				e.Strs("tagsSteps", evs, "decodeTags: statements")
+			}
+		}
+		if tf, err := r.Load("tokenizer/tokenizer.go"); err != nil {
+			e.Missing("csNormalizesInvalid", err)
+		} else if fd := tf.Func("", "toLowerIfCaseInsensitive"); fd == nil {
+			e.Missing("csNormalizesInvalid", "toLowerIfCaseInsensitive not found")
+		} else {
+			norm := false
+			for _, st := range fd.Body.List {
+				is, ok := st.(*ast.IfStmt)
+				if !ok || tf.Render(is.Cond) != "isCaseSensitive" {
+					continue
+				}
+				body := tf.Render(is.Body)
+				norm = strings.Contains(body, "if utf8.Valid(x) { return x }") && strings.Contains(body, "return bytes.Map(func(r rune) rune { return r }, x)")
+			}
+			e.Bool("csNormalizesInvalid", norm, "toLowerIfCaseInsensitive: the case-sensitive branch replaces invalid UTF-8 (same fact as C11's)")
+		}
+
 		// ---- processor.go: documentDelayed translated, Process time selection
 		pf, err := r.Load("proxy/bulk/processor.go")
 		if err != nil {
